@@ -3,7 +3,7 @@ package c09
 import (
 	"bytes"
 	"fmt"
-	"unsafe"
+	"strings"
 
 	"github.com/openacid/low/bitstr"
 
@@ -17,7 +17,8 @@ import (
 // library in several shapes: nil or empty non-nil, an exact-size allocation, or a sub-slice / substring of
 // a larger buffer that starts at an odd address, has foreign bytes in front of it and spare capacity with
 // foreign bytes behind it (a key cut from a reused read buffer: buf[:0], buf[i:j]). The answer must not
-// depend on the shape, and nothing outside the value may be written.
+// depend on the shape, and nothing outside the value may be written. []byte arguments are cut from buffers
+// the harness uses again for the next case; string arguments are real strings (see oddStr).
 
 const carveTail = 40 // bytes behind the value (spare capacity); more than any word/vector width used for loads
 const carveSlots = 6
@@ -49,9 +50,53 @@ func carve(slot int, src []byte, off int, pre byte, tail tailBytes) ([]byte, car
 	return buf[off : off+len(src) : need], c
 }
 
-// str is the carved value as a string (no copy: the string's bytes are the buffer's).
-func (c carved) str() string {
-	return unsafe.String(&carveMem[c.slot][c.off], c.n)
+// oddStr is carve for a string argument: src as a substring, off bytes into a larger string, with pre in front
+// and tail behind it. Strings are immutable, so this is a REAL string: a private copy that nobody writes afterwards
+// (a library may remember a string by the address and length of its bytes). whole is the larger string.
+func oddStr(src []byte, off int, pre byte, tail tailBytes) (sub, whole string) {
+	// strings of up to two bytes (the exhaustive grid asks for the same few hundred over and over) are built once
+	// and handed out again: the same immutable string, as a caller that looks up one key many times passes it
+	var key uint32
+	short := len(src) <= 2 && pre == 0xff && tail == tailBytes(tailFF)
+	if short {
+		key = uint32(off)<<24 | uint32(len(src))<<16
+		for i, b := range src {
+			key |= uint32(b) << (8 * uint(i))
+		}
+		if w, ok := oddShort[key]; ok {
+			return w[off : off+len(src)], w
+		}
+	}
+	var sb strings.Builder
+	sb.Grow(off + len(src) + carveTail)
+	for i := 0; i < off; i++ {
+		sb.WriteByte(pre)
+	}
+	sb.Write(src)
+	sb.Write(tail[:])
+	whole = sb.String()
+	if short {
+		oddShort[key] = whole
+	}
+	return whole[off : off+len(src)], whole
+}
+
+var oddShort = map[uint32]string{}
+
+// strDamage reports a byte of the larger string that no longer is what oddStr put there.
+func strDamage(whole string, src []byte, off int, pre byte, tail tailBytes) string {
+	for i := 0; i < off; i++ {
+		if whole[i] != pre {
+			return fmt.Sprintf("byte %d in front of the string argument was written", off-i)
+		}
+	}
+	if whole[off:off+len(src)] != string(src) {
+		return "the string argument's bytes were modified"
+	}
+	if whole[off+len(src):] != string(tail[:]) {
+		return fmt.Sprintf("the bytes behind the string argument (length %d) were written", len(src))
+	}
+	return ""
 }
 
 // damage reports a byte in or around the value that no longer is what carve wrote.
@@ -112,12 +157,13 @@ func checkKeyShapes(a, e []byte, want int, x Range) *vk.Failure {
 			pre, tail, name = 0xa5, cont, "the bytes b continues with"
 		}
 		k, c := carve(sh, a, off, pre, tail)
+		ks, whole := oddStr(a, off, pre, tail)
 		var g, gs int
 		if f := vk.TryF(func() string {
 			return fmt.Sprintf("CmpUpto/StrCmpUpto(a, b) with a = %s cut out of a larger buffer (offset %d, spare capacity filled with %s), b = %s", hexShort(a), off, name, hexShort(e))
 		}, func() {
 			g = bitstr.CmpUpto(k, e)
-			gs = bitstr.StrCmpUpto(c.str(), e)
+			gs = bitstr.StrCmpUpto(ks, e)
 		}); f != nil {
 			return f
 		}
@@ -127,6 +173,9 @@ func checkKeyShapes(a, e []byte, want int, x Range) *vk.Failure {
 		}
 		if msg := c.damage(a); msg != "" {
 			return vk.Failf("argument-spare-capacity-written", "CmpUpto/StrCmpUpto(a=%s, b=%s): %s", hexShort(a), hexShort(e), msg)
+		}
+		if msg := strDamage(whole, a, off, pre, tail); msg != "" {
+			return vk.Failf("argument-spare-capacity-written", "StrCmpUpto(a=%s, b=%s): %s", hexShort(a), hexShort(e), msg)
 		}
 	}
 	if len(a) == 0 {
@@ -196,14 +245,14 @@ func checkCmpShapes(ex, ey []byte, want int, x, y Range) *vk.Failure {
 // larger string must encode the same bit string: same Len, and Cmp = 0 against the encoding e of the plain copy.
 func checkNewPlacement(r Range, e []byte, wantLen int32) *vk.Failure {
 	off := int(vk.Mix(vk.Hash64(r.S)+uint64(r.From)*131+uint64(r.To))%7) + 1
-	_, c := carve(0, r.S, off, 0xff, tailFF)
+	sub, whole := oddStr(r.S, off, 0xff, tailFF)
 	var e2 []byte
 	var l int32
 	var c1, c2 int
 	if f := vk.TryF(func() string {
 		return fmt.Sprintf("bitstr.New(%s, %d, %d) with the string being a substring (offset %d) of a larger one", hexShort(r.S), r.From, r.To, off)
 	}, func() {
-		e2 = bitstr.New(c.str(), r.From, r.To)
+		e2 = bitstr.New(sub, r.From, r.To)
 		l = bitstr.Len(e2)
 		c1, c2 = bitstr.Cmp(e, e2), bitstr.Cmp(e2, e)
 	}); f != nil {
@@ -213,8 +262,78 @@ func checkNewPlacement(r Range, e []byte, wantLen int32) *vk.Failure {
 		return vk.Failf("new-string-placement", "New(%s, %d, %d) = %s for a fresh copy of the string but %s (Len %d, want %d; Cmp %d/%d, want 0) when the string is a substring at offset %d of a larger string with ff around it",
 			hexShort(r.S), r.From, r.To, hexShort(e), hexShort(e2), l, wantLen, c1, c2, off)
 	}
-	if msg := c.damage(r.S); msg != "" {
+	if msg := strDamage(whole, r.S, off, 0xff, tailFF); msg != "" {
 		return vk.Failf("new-mutates", "New(%s, %d, %d): %s", hexShort(r.S), r.From, r.To, msg)
+	}
+	return nil
+}
+
+// ---------------------------------------------------------------- an encoding belongs to its caller
+//
+// "New(s,from,to) encodes the bit string", for every call: what a call returned is the caller's. A caller builds
+// the next label in place (e[0] = ..., append(e[:0], ...)) or keeps the encoding in its trie while it goes on
+// calling New. checkOwned takes the encoding e that New just returned (want = its length in bits), obtains a second
+// one from an identical call (again), uses the second one the way a caller reuses a buffer - every byte and all
+// spare capacity overwritten -, and calls New a third time: the first result must still read as it did, the
+// third must encode the same bit string (Len, Cmp = 0 both ways against a private copy of the first). The first
+// result then stays under watch (checker.Keep): it is read again after each of the next few cases.
+var keepResult func(func() string) // checker.Keep (set in init: the checker refers to the checks)
+
+func init() { keepResult = checker.Keep }
+
+func checkOwned(what func() string, again func() []byte, e []byte, want int32) *vk.Failure {
+	snap := append([]byte(nil), e...)
+	var e1, e2 []byte
+	var l1, l2, l0 int32
+	var c1, c2, c3, c4 int
+	if f := vk.TryF(func() string { return what() + ", called a second time" }, func() {
+		e1 = again()
+		l1 = bitstr.Len(e1)
+		c1, c2 = bitstr.Cmp(e, e1), bitstr.Cmp(e1, e)
+	}); f != nil {
+		return f
+	}
+	if l1 != want || c1 != 0 || c2 != 0 {
+		return vk.Failf("new-repeated", "%s = %s, the same call again = %s: Len %d, want %d; Cmp of the two %d/%d, want 0", what(), hexShort(snap), hexShort(e1), l1, want, c1, c2)
+	}
+	for i := range e1 {
+		e1[i] = ^e1[i]
+	}
+	vk.ScribbleBytes(e1)
+	// on a failure the overwritten bytes are put back: the cases that follow (the shrink candidates among them)
+	// then start from what the library had before, and fail for their own reasons only
+	undo := func() {
+		for i := range e1 {
+			e1[i] = ^e1[i]
+		}
+	}
+	if !bytes.Equal(e, snap) {
+		defer undo()
+		return vk.Failf("new-result-shared", "%s returned %s; the caller then overwrote the encoding that a second, identical call had returned (every byte complemented, spare capacity filled) and the first one now reads %s: two results of New share memory", what(), hexShort(snap), hexShort(e))
+	}
+	if f := vk.TryF(func() string { return what() + ", called a third time" }, func() {
+		e2 = again()
+		l2, l0 = bitstr.Len(e2), bitstr.Len(e)
+		c3, c4 = bitstr.Cmp(e2, snap), bitstr.Cmp(snap, e2)
+	}); f != nil {
+		return f
+	}
+	if l2 != want || c3 != 0 || c4 != 0 {
+		defer undo()
+		return vk.Failf("new-result-shared", "%s = %s (Len %d, want %d; Cmp with the encoding returned at first, %s: %d/%d, want 0) after the caller overwrote the encoding an earlier, identical call had returned: New hands out memory it uses again", what(), hexShort(e2), l2, want, hexShort(snap), c3, c4)
+	}
+	if l0 != want || !bytes.Equal(e, snap) {
+		defer undo()
+		return vk.Failf("new-result-shared", "%s returned %s, which reads %s (Len %d, want %d) after two more identical calls", what(), hexShort(snap), hexShort(e), l0, want)
+	}
+	if len(e) <= 1<<16 {
+		kept := e
+		keepResult(func() string {
+			if !bytes.Equal(kept, snap) {
+				return fmt.Sprintf("%s returned %s, which now reads %s", what(), hexShort(snap), hexShort(kept))
+			}
+			return ""
+		})
 	}
 	return nil
 }
